@@ -37,15 +37,20 @@ type authEvent struct {
 	Scheme string `json:"scheme,omitempty"`
 	Auth   string `json:"auth,omitempty"`
 	Result string `json:"result,omitempty"`
+	After  string `json:"after,omitempty"` // the answer the previous request of this run got: start | unauth | redir
 	N      int    `json:"n"`
 }
 
 type recHelper struct {
 	names map[string]string // host:port -> abstract host
+	emit  func(ev, host string)
 }
+
+func (h *recHelper) name(c creds.Creds) string { return h.names[creds.FirstEntryForKey(c, "host")] }
 
 func (h *recHelper) Fill(in creds.Creds) (creds.Creds, error) {
 	host := creds.FirstEntryForKey(in, "host")
+	h.emit("fill", h.names[host])
 	out := creds.Creds{}
 	for k, v := range in {
 		out[k] = v
@@ -54,8 +59,8 @@ func (h *recHelper) Fill(in creds.Creds) (creds.Creds, error) {
 	out["password"] = []string{"p"}
 	return out, nil
 }
-func (h *recHelper) Reject(creds.Creds) error  { return nil }
-func (h *recHelper) Approve(creds.Creds) error { return nil }
+func (h *recHelper) Reject(c creds.Creds) error  { h.emit("reject", h.name(c)); return nil }
+func (h *recHelper) Approve(c creds.Creds) error { h.emit("approve", h.name(c)); return nil }
 
 func cmdAuth(args []string) {
 	in, err := os.Open(args[0])
@@ -73,6 +78,7 @@ func cmdAuth(args []string) {
 	var cur *authScript
 	cursor := map[string]int{}
 	nreq := 0
+	after := "start"
 	urls := map[string]string{}
 	names := map[string]string{}
 	mk := func(name string, tls bool, useLocalhost bool) {
@@ -93,7 +99,7 @@ func cmdAuth(args []string) {
 			if tls {
 				scheme = "https"
 			}
-			enc.Encode(authEvent{Ev: "req", Host: name, Scheme: scheme, Auth: auth, N: nreq})
+			enc.Encode(authEvent{Ev: "req", Host: name, Scheme: scheme, Auth: auth, N: nreq, After: after})
 			ans := []string{"ok", "-"}
 			if cur != nil {
 				l := cur.Answers[name]
@@ -108,6 +114,7 @@ func cmdAuth(args []string) {
 			if nreq > 50 {
 				ans = []string{"ok", "-"} // budget: an unbounded chain is cut here and judged by the acceptor
 			}
+			after = ans[0]
 			rw.Header().Set("Content-Type", "application/vnd.git-lfs+json")
 			switch ans[0] {
 			case "unauth":
@@ -153,6 +160,7 @@ func cmdAuth(args []string) {
 		cur = &s
 		cursor = map[string]int{}
 		nreq = 0
+		after = "start"
 		enc.Encode(authEvent{Ev: "reset", ID: s.ID})
 		mu.Unlock()
 		api := urls["api"] + "/repo.git/info/lfs"
@@ -168,7 +176,11 @@ func cmdAuth(args []string) {
 			fmt.Fprintln(os.Stderr, "client:", err)
 			os.Exit(4)
 		}
-		c.Credentials = &recHelper{names: names}
+		c.Credentials = &recHelper{names: names, emit: func(ev, host string) {
+			mu.Lock()
+			defer mu.Unlock()
+			enc.Encode(authEvent{Ev: ev, Host: host, N: nreq})
+		}}
 		result := "ok"
 		func() {
 			defer func() {
